@@ -114,6 +114,20 @@ CLAIMED.update({
    note="EACCES cannot be provoked (the sandbox runs as root). Argument-kind misuse is C11's. The harness tracks the pending byte count of the 8 KiB write buffer to know which call hits ENOSPC.",
    technique="exhaustive enumeration of fault x call-sequence combinations run through the real VM"),
 })
+CLAIMED.update({
+ "C20": dict(level="model_checking", design="4.20",
+   text="Every run is the p2sh binary on a script with a pcap stream on stdin, compared byte for byte with an explicit model of filter mode (non-filter statements once and first; per packet every filter in source order with NP/PL/WL/TSS/TSU of that record; an action-less true filter appends the packet as modified so far; the end action once with NP = k). H: 41 global headers (magic us/ns x snaplen 40/43 (= a captured length)/96/65535/262144 x linktype 1/105 x version 2.4/2.3, one with zone/sigfigs) x k packets x 3 programs x (-s | no -s); L: every ordered list of <= 2 (thorough 3) filters from a 16-filter alphabet (patterns over NP/PL/WL/TSS/TSU and fields, actions updating globals and locals, field assignments seen by later filters) x (end | none) on a 3-packet stream; S: lists of <= 1 (thorough 2) x end x -s x k in 0..=3 (thorough 0..=5); P: 3 preamble shapes. Without -s stdout must equal the input's 24-byte global header + the model's records; with -s stdout must equal exactly the printed text.",
+   note="Patterns and actions are closed-form so the harness can evaluate them; the expression language at large is C02-C13's. Text printed to stdout without -s is not generated.",
+   technique="exhaustive enumeration of filter lists x streams through the binary against an explicit model of the mode"),
+ "C23": dict(level="model_checking", design="4.23",
+   text="Every history of exactly 2 (thorough 3) lines over a 19-line alphabet and of exactly 3 (thorough 4) lines over its 11-line core (definitions, redefinitions, functions, uses, a shadowed builtin, parse errors, compile errors that would redefine a name or fail inside a function body, lines failing at run time after a definition), each as one run of the real run_prompt loop through the cfg-guarded scripted line source, with a marker line after each line to delimit its output; thorough adds 12-line histories with every pair of lines at two positions. Oracle per line (differential, as the statement is phrased): the script made of the accepted lines so far (a failing line contributes its statements before the failure) plus the line, compiled and run in-process: rejected => nothing on stdout, a message on stderr, no effect; value => exactly the echo of command mode; runtime error => the same message.",
+   note="The interactive line editor (continuation lines, history, completion) is not driven. A name bound after the failing statement of a line is never read.",
+   technique="exhaustive enumeration of REPL line histories (explicit-state exploration of the prompt loop) with a differential script oracle"),
+ "C24": dict(level="model_checking", design="4.24",
+   text="Exhaustive grid: 21 programs (final expression statement null / non-null of every value kind incl. falsey ones, final let / fn / loop statement, runtime error after output, parse error, compile error, exit(3), stderr output, multi-line), each preceded by an argv dump, x 9 argument vectors (empty, unicode, spaces, empty string, dash-prefixed after --, a second --, -c after --, 40 arguments) x 4 invocation modes (script file, -c, script with a #! first line passed as argument, the same script executed directly) + the REPL. Oracle: script argv = [path] + arguments; #! scripts give the same stdout, stderr (line numbers + 1) and status; -c gives argv = positional arguments, the same stdout plus the display text of the final expression statement's value when it was reached and is not null, same stderr and status; REPL argv is empty.",
+   note="Dash-prefixed arguments without a preceding -- are clap usage errors in every mode and not generated.",
+   technique="exhaustive enumeration of program x argv x invocation-mode grid with a differential oracle between modes"),
+})
 NOT_YET = "check not built yet in this round (machinery under construction; see DESIGN.md section 4 for the planned check)"
 
 props = [json.loads(l) for l in open(os.path.join(HERE, "properties.jsonl"))]
